@@ -1,12 +1,19 @@
 // ---------------------------------------------------------------------------
-// shim/memimage.rs -- TRUSTED.  Contracts for the std iterator / CStr chains of
-// runtime_memory_image.rs that Verus cannot parse.  Each function here is the
-// target of one declared R9 substitution in contracts/memimage.vc; the pattern
-// holes capture the ARGUMENTS of the chain (slice, indices, endianness flag), so
-// a changed argument in /repo flows into the call and is verified against the
-// contract below.  The contracts are the std documentation of the chain,
-// including its panic conditions (as `requires`).
-// Every `external_body` here is an assumption and is listed in the evidence.
+// shim/memimage.rs -- TRUSTED.  Contracts for the std pieces of
+// runtime_memory_image.rs that this Verus/vstd build has no specification for.
+//  * read_string_until_null_terminator: two iterator / CStr chains that Verus
+//    cannot parse; each `verif_*` function is the target of one declared R9
+//    substitution in contracts/memimage.vc whose holes capture the ARGUMENTS of
+//    the chain (slice, indices), so a changed argument in /repo flows into the
+//    call and is verified against the contract.  Contracts = std documentation of
+//    the chain, including its panic conditions (as `requires`).
+//  * read: NO substitution.  The only item is the `assume_specification` of
+//    `<[T]>::to_vec` at the end of this file; slicing, into_iter, rev, collect,
+//    next, unwrap and the `for` loop are specified by vstd itself, and the Piece
+//    fold is verified from the real text against the contract of
+//    Bitvector::bin_op (proved in unit bitvector).
+// Every external_body / assume_specification here is an assumption and is listed
+// in the evidence.
 // ---------------------------------------------------------------------------
 
 /// "is valid UTF-8" (core::str::from_utf8 succeeds) -- left uninterpreted.
@@ -49,20 +56,13 @@ impl CStr {
     { unimplemented!() }
 }
 
-/// R9 target for the byte-order assembly block of `RuntimeMemoryImage::read`:
-///     let mut bytes = BYTES[LO..HI].to_vec();
-///     if LITTLE_ENDIAN { bytes = bytes.into_iter().rev().collect(); }
-///     let mut bytes = bytes.into_iter();
-///     let mut bitvector = Bitvector::from_u8(bytes.next().unwrap());
-///     for byte in bytes { let new_byte = Bitvector::from_u8(byte); bitvector = bitvector.bin_op(BinOpType::Piece, &new_byte)?; }
-/// Panics: the slicing unless LO <= HI <= len, `next().unwrap()` when LO == HI.  `Piece` appends the new byte as
-/// the least significant byte and is never `Err` for well-formed operands (proved in unit `bitvector`, C01), so
-/// the first byte of the (possibly reversed) vector ends up most significant.  THE CONTRACT IS THE "in the image's
-/// byte order" CLAUSE OF C19: that clause is assumed here, not proved.  (HI-LO)*8 <= MAXW is the model's width bound.
-#[verifier::external_body]
-pub fn verif_bytes_to_bitvector(bytes: &Vec<u8>, lo: usize, hi: usize, little_endian: bool) -> (r: Result<Bitvector, Error>)
-    requires lo < hi <= bytes@.len(), (hi - lo) * 8 <= MAXW(),
+/// std `<[T]>::to_vec` (used by `RuntimeMemoryImage::read` as `segment.bytes[lo..hi].to_vec()`), for which this
+/// vstd build has no specification.  std documentation: "Copies `self` into a new `Vec`" -- same length, every
+/// element the clone of the element at the same position (`cloned` is vstd's relation "b is a clone of a"; for
+/// `u8` it is equality).  NOT a substitution: the call in /repo is verified as written, the slicing
+/// `bytes[lo..hi]` (panics unless lo <= hi <= len), `Vec::into_iter`, `Iterator::rev`, `collect`, `next`, `unwrap`
+/// and the `for` loop over the `vec::IntoIter` are covered by vstd's own std specifications.
+pub assume_specification<T: Clone> [ <[T]>::to_vec ] (s: &[T]) -> (r: Vec<T>)
     ensures
-        r is Ok,
-        r->Ok_0 == bv(((hi - lo) * 8) as nat, mem_value(bytes@.subrange(lo as int, hi as int), little_endian)),
-{ unimplemented!() }
+        r@.len() == s@.len(),
+        forall|i: int| 0 <= i < s@.len() ==> cloned::<T>(#[trigger] s@[i], r@[i]);
